@@ -93,6 +93,11 @@ def target_spec(name):
         fl = BASE + HOOKS + (["-O2"] if name == "enc_fast" else SAN + ["-O1"])
         units = [(f"{S}/enc/enc_main.cpp", "enc_main.o", fl), (f"{REPO}/art_internal.cpp", "art_internal.o", fl)]
         return "g++", units, ([] if name == "enc_fast" else SAN), ["enc"]
+    if name == "qsbr_fault":
+        fl = BASE + HOOKS + ["-O1"]   # no sanitizer: test_heap.cpp replaces operator new only then
+        units = [(f"{S}/fault/qsbr_fault.cpp", "qsbr_fault.o", fl)]
+        units += [(f"{REPO}/{f}", f.replace(".cpp", ".o"), fl) for f in ["qsbr.cpp", "qsbr_ptr.cpp", "test_heap.cpp"]]
+        return "g++", units, ["-pthread"], ["fault"]
     if name == "olc":
         fl = BASE + HOOKS + STATS + SAN + ["-O1"]
         units = [(f"{S}/conc_olc/olc_main.cpp", "olc_main.o", fl)]
@@ -279,6 +284,16 @@ def finish(pid, res):
 # Sequential-history checks: C01, C02, C10
 
 SEQ_RULES = {
+    "C08": "case = one injected fault: for every insert / remove of a generated history (all six index/key "
+           "configurations) the library's allocation-failure injector fails exactly the k-th allocation of that "
+           "operation, k = 1, 2, ... until the operation completes (so every allocation it makes is failed once); "
+           "plus inserts with an over-long value (2^32 bytes) or key (2^32+1 bytes); oracle: std::bad_alloc / "
+           "std::length_error reaches the caller and a snapshot (forward scan with values, get of every key, "
+           "empty(), node counts, memory use, growth/shrink/split counters, the set of live blocks reported by the "
+           "allocation hooks) is identical before and after; a spin-wait reached by the single-threaded harness "
+           "means a lock was left held; the un-faulted repeat returns the model's result; non-trivial = a fault at "
+           "the 2nd or a later allocation of an operation (something already allocated must be given back); "
+           "distinct_nontrivial counts distinct histories containing such a fault",
     "C01": "case = generated history (universe -> insert/remove/get/empty/clear[/quiescent] ops) on one of six "
            "index configurations, interpreted against a std::map model with held-view re-reads; non-trivial = the "
            "history caused >=1 structural transition (leaf split, prefix split, growth/shrink between node classes, "
@@ -348,6 +363,8 @@ def check_seq(pid, tier, seed):
         plan = [(200, 150000)] * 8 + [(600, 15000)] * 6 + [(1500, 3000)] * 2
     if pid == "C10":
         plan = [(s, max(1, c // 3)) for s, c in plan]
+    if pid == "C08":
+        plan = [(60, 3000)] * 12 + [(150, 300)] * 4 if tier == "quick" else [(60, 10000)] * 10 + [(150, 1500)] * 6
     cmds = []
     for i, (size, cases) in enumerate(plan):
         cmds.append([exe, "--prop", pid, "--seed", str(seed * 1000 + i), "--cases", str(cases), "--size", str(size),
@@ -374,8 +391,40 @@ def check_seq(pid, tier, seed):
         else:
             log(f"harness error rc={rc}: {' '.join(c)}\n{out[-500:]}\n{err[-1500:]}")
             raise SystemExit(2)
-    counters, distinct, samples = merge_stats([os.path.join(outdir, f"stats{i}.json") for i in range(len(plan))])
+    stat_files = [os.path.join(outdir, f"stats{i}.json") for i in range(len(plan))]
+    if pid == "C08":
+        # QSBR part: resume / thread start / deferred-deallocation request (no-sanitizer build, operator new intercepted)
+        qf = build("qsbr_fault")
+        per = 4000 if tier == "quick" else 150000
+        qcmds = [[qf, "--seed", str(seed * 1000 + 500 + i), "--cases", str(per), "--out",
+                  os.path.join(outdir, f"qstats{i}.json"), "--fail-dir", outdir] for i in range(NCPU)]
+        for c, rc, out, err in run_parallel(qcmds, timeout=3 * 3600):
+            if rc == 0:
+                continue
+            if rc == 1 and "FAILURE " in out:
+                line = [l for l in out.splitlines() if l.startswith("FAILURE ")][0]
+                path = line.split()[1]
+                msg = line.split("::", 1)[1].strip() if "::" in line else ""
+                if confirm_replay(qf, [], path):
+                    os.makedirs(faildir, exist_ok=True)
+                    dst = os.path.join(faildir, os.path.basename(path))
+                    shutil.copy(path, dst)
+                    res.violations.append((dst, msg))
+                else:
+                    res.inconclusive.append(f"QSBR fault failure did not reproduce: {path}")
+            elif rc == "timeout":
+                res.inconclusive.append("qsbr_fault worker hit the wall-clock budget")
+            else:
+                os.makedirs(faildir, exist_ok=True)
+                dst = os.path.join(faildir, f"C08_qsbr_crash_{c[2]}.txt")
+                with open(dst, "w") as f:
+                    f.write(f"# engine: qsbr_fault\n# process died rc={rc}: {' '.join(c)}\n# {err[-1500:]}\n")
+                res.violations.append((dst, f"qsbr_fault crashed rc={rc}: {err[-300:]}"))
+        stat_files += [os.path.join(outdir, f"qstats{i}.json") for i in range(NCPU)]
+    counters, distinct, samples = merge_stats(stat_files)
     evaluations = counters.get("cases", 0)
+    if pid == "C08":
+        evaluations = counters.get("faults", 0)
     if pid == "C02":
         evaluations = sum(v for k, v in counters.items() if k.startswith("scans.") and k != "scans.with_halt")
     cov = {
@@ -401,7 +450,12 @@ def check_seq(pid, tier, seed):
         cov["scans_skipped_precondition"] = counters.get("scan_skipped_precondition", 0)
     if pid == "C10":
         cov["histories_revisiting_a_key_set"] = counters.get("cases_revisiting_a_key_set", 0)
-    write_evidence(pid, tier, seed, "exploration", cov, time.time() - t0, len(res.violations),
+    if pid == "C08":
+        cov["injected_faults"] = counters.get("faults", 0)
+        cov["injected_faults_at_2nd_or_later_allocation"] = counters.get("faults_k2plus", 0)
+        cov["faults_by_operation_and_k"] = {k[7:]: v for k, v in counters.items() if k.startswith("faults.")}
+    write_evidence(pid, tier, seed, "fault_enumeration" if pid == "C08" else "exploration", cov, time.time() - t0,
+                   len(res.violations),
                    ["the std::map / canonical-radix-tree models restate the property (no unodb code shared)",
                     "byte-string histories needing a compressed path > 7 bytes are excluded (known finding K1)",
                     "ASan+UBSan and the library's own assertions are enabled in the harness build"])
@@ -770,6 +824,7 @@ def check_olc(pid, tier, seed):
 
 
 CHECKS = {
+    "C08": check_seq,
     "C03": check_olc,
     "C04": check_olc,
     "C09": check_olc,
@@ -786,6 +841,7 @@ CHECKS = {
 }
 
 REPLAY = {
+    "C08": ("seq", lambda pid: ["--prop", pid]),
     "C03": ("olc", lambda pid: ["--prop", pid]),
     "C04": ("olc", lambda pid: ["--prop", pid]),
     "C09": ("olc", lambda pid: ["--prop", pid]),
@@ -812,7 +868,7 @@ def main():
     a = ap.parse_args()
     os.makedirs(WORK, exist_ok=True)
     if a.build_all:
-        for t in ["seq", "enc_fast", "enc_san", "lock", "qsbr", "olc"]:
+        for t in ["seq", "enc_fast", "enc_san", "lock", "qsbr", "olc", "qsbr_fault"]:
             build(t)
         return 0
     seed = a.seed if a.seed is not None else int(os.environ.get("VERIF_SEED", "1") or 1)
